@@ -29,6 +29,7 @@ type c17Case struct {
 	Via   string `json:"via"`   // lib, cli
 	Rep   int    `json:"rep,omitempty"`
 	Big   bool   `json:"big,omitempty"`   // slice size 96 and larger files, so that the goroutine option really splits the work
+	Look  bool   `json:"look,omitempty"` // look-alike inputs: every file 17000 bytes with the same first 16 KiB, different tails (slice size 1000)
 	Dup   string `json:"dup,omitempty"`   // the first input is listed a second time (at the end), spelled in this style
 	Stale int    `json:"stale,omitempty"` // the set directory already holds output files: 1 = longer garbage under the same names, 2 = shorter, 3 = unrelated text; 4 = a real earlier Create over the same inputs with ONE block; 5 = a real earlier identical Create whose recovery files were then deleted / corrupted
 }
@@ -38,6 +39,9 @@ var c17Sizes = []int{11, 6, 9, 4}
 var c17BigSizes = []int{300, 96, 200, 50}
 
 func (c *c17Case) slice() int {
+	if c.Look {
+		return 1000
+	}
 	if c.Big {
 		return 96
 	}
@@ -112,7 +116,11 @@ func c17CreateIn(c *c17Case, seed int64, r *core.Rec, stale map[string][]byte) (
 		if c.Big {
 			sz = c17BigSizes[i]
 		}
-		ioutil.WriteFile(p, scen.Content("uniq", seed, i, sz, 4), 0644)
+		class := "uniq"
+		if c.Look {
+			class, sz = "lookalike", 17000
+		}
+		ioutil.WriteFile(p, scen.Content(class, seed, i, sz, 4), 0644)
 		abs = append(abs, p)
 	}
 	for n, b := range stale {
@@ -275,10 +283,10 @@ func c17Run(ci interface{}, r *core.Rec) {
 		c17RunDup(c, r)
 		return
 	}
-	key := fmt.Sprintf("%s/%d/%v", c.Fmt, c.N, c.Big)
+	key := fmt.Sprintf("%s/%d/%v/%v", c.Fmt, c.N, c.Big, c.Look)
 	base, ok := c17Base[key]
 	if !ok {
-		b := &c17Case{Fmt: c.Fmt, N: c.N, Perm: 0, G: 1, Cwd: "set", Spell: "rel", Via: "lib", Big: c.Big}
+		b := &c17Case{Fmt: c.Fmt, N: c.N, Perm: 0, G: 1, Cwd: "set", Spell: "rel", Via: "lib", Big: c.Big, Look: c.Look}
 		var err error
 		base, err = c17Create(b, r.Seed, r)
 		if err != nil {
@@ -385,6 +393,14 @@ func c17Gen(g *core.Gen) {
 					}
 				}
 			}
+			// look-alike inputs (same length, same first 16 KiB): every permutation x goroutines {1,3}
+			if n >= 2 {
+				for pm := 0; pm < np; pm++ {
+					for _, gg := range []int{1, 3} {
+						g.Emit(&c17Case{Fmt: f, N: n, Perm: pm, G: gg, Cwd: cwds[pm%3], Spell: spells[pm%5], Via: "lib", Look: true})
+					}
+				}
+			}
 			// an input listed twice, the two mentions spelled alike or differently
 			for ci, cw := range cwds {
 				for _, sp := range spells {
@@ -409,7 +425,7 @@ func init() {
 	core.Register(&core.Prop{
 		ID:    "C17",
 		Level: "model_checking",
-		Rule: "full product on real directories: {PAR2, PAR1} x 1-4 files (PAR2 names in sub-directories) x EVERY permutation of the input list (PAR2) x goroutines 1..8 x working directory {set directory, its parent, an unrelated directory} x path spelling {relative, absolute, ./x, d//x, d/../d/x} for the index path and every input, through the library (the worker chdir()s, one scenario at a time) and through the built par command (g in {1,3}); the same for a set with slice size 96 and multi-slice files x goroutines 1..16 (so that the goroutine option really partitions the shards); repeated runs; an input listed twice, for every pair of spellings of its two mentions x working directory (whatever Create does with a repeated input, the outcome - error or bytes - must equal that of the list with both mentions spelled alike). " +
+		Rule: "full product on real directories: {PAR2, PAR1} x 1-4 files (PAR2 names in sub-directories) x EVERY permutation of the input list (PAR2) x goroutines 1..8 x working directory {set directory, its parent, an unrelated directory} x path spelling {relative, absolute, ./x, d//x, d/../d/x} for the index path and every input, through the library (the worker chdir()s, one scenario at a time) and through the built par command (g in {1,3}); the same for a set with slice size 96 and multi-slice files x goroutines 1..16 (so that the goroutine option really partitions the shards); repeated runs; look-alike inputs (equal length, identical first 16 KiB, different tails) x every permutation x g {1,3}; an input listed twice, for every pair of spellings of its two mentions x working directory (whatever Create does with a repeated input, the outcome - error or bytes - must equal that of the list with both mentions spelled alike). " +
 			"Oracle: the set of files written and every byte equal the baseline run (set directory, relative paths, listed order, g=1). non-trivial = any variation differs from the baseline configuration",
 		Assumptions: []string{"file contents, names relative to the index, slice size and block count are held fixed; everything else varies"},
 		NewCase:     func() interface{} { return &c17Case{} },
